@@ -257,6 +257,68 @@ class Model:
             elif isinstance(n, (ast.If, ast.For, ast.While, ast.With, ast.Try)):
                 self._collect(m, n, prefix, cls, parent)
 
+    # -------------------------------------------------------------- array-module names
+    def _is_xp_expr(self, e, func, known):
+        """expression evaluating to the array module: <anything>.xp, get_array_module(..), a name already known as such, np itself"""
+        if isinstance(e, ast.Attribute) and e.attr == "xp":
+            return True
+        if isinstance(e, ast.Call):
+            f = e.func
+            nm = f.attr if isinstance(f, ast.Attribute) else (f.id if isinstance(f, ast.Name) else None)
+            return nm == "get_array_module"
+        if isinstance(e, ast.Name):
+            if e.id in known or e.id == "xp":
+                return True
+            return func is not None and func.mod.imports.get(e.id) in ("numpy",)
+        return False
+
+    def xp_names(self, func):
+        """names that denote the array module (numpy on the analysed CPU build) inside `func`: locals bound from `<dev>.xp` /
+        `get_array_module(..)` (in the function or an enclosing one), and parameters that receive such a value at every call site.
+        Decided from bindings, not from the spelling of the name (the historical spelling `xp` is kept as a fallback for snippets)."""
+        if func is None:
+            return {"xp"}
+        cache = self.__dict__.setdefault("_xp_cache", {})
+        if func.qual in cache:
+            return cache[func.qual]
+        cache[func.qual] = {"xp"}  # recursion guard
+        names = {"xp"}
+        if func.parent is not None:
+            names |= self.xp_names(func.parent)
+        bound_other = set()
+        for n in ast.walk(func.node):
+            if isinstance(n, ast.Assign) and len(n.targets) == 1 and isinstance(n.targets[0], ast.Name):
+                if self._is_xp_expr(n.value, func, names):
+                    names.add(n.targets[0].id)
+                else:
+                    bound_other.add(n.targets[0].id)
+            elif isinstance(n, ast.withitem) and isinstance(n.optional_vars, ast.Name):
+                bound_other.add(n.optional_vars.id)
+        # parameters: every call site in the package passes an array module
+        sites = self.__dict__.setdefault("_call_sites", None)
+        if sites is None:
+            sites = {}
+            for g in self.funcs.values():
+                for c in ast.walk(g.node):
+                    if isinstance(c, ast.Call) and isinstance(c.func, ast.Name):
+                        sites.setdefault(c.func.id, []).append((g, c))
+            self._call_sites = sites
+        if func.cls is None or func.parent is not None:
+            for i, p in enumerate(func.params):
+                calls = [(g, c) for g, c in sites.get(func.name, []) if self.resolve_call(g, c) == ("repo", func)]
+                if not calls:
+                    continue
+                ok = True
+                for g, c in calls:
+                    arg = c.args[i] if i < len(c.args) else next((k.value for k in c.keywords if k.arg == p), None)
+                    if arg is None or not self._is_xp_expr(arg, g, self.xp_names(g) if g is not func else names):
+                        ok = False
+                if ok:
+                    names.add(p)
+        names -= {n for n in bound_other if n != "xp" and n not in func.params}
+        cache[func.qual] = names
+        return names
+
     # -------------------------------------------------------------- lookup
     def mod(self, name):
         if name not in self.mods:
@@ -376,7 +438,7 @@ class Model:
         if parts is None:
             return None
         head = parts[0]
-        if head in ("xp",):
+        if head == "xp" or (func is not None and head in self.xp_names(func)):
             return "numpy." + ".".join(parts[1:]) if len(parts) > 1 else "numpy"
         # local (nested) function / same-module definition
         if len(parts) == 1:
